@@ -19,6 +19,10 @@ def tfmt(t):
     return "N" if t is None else str(int(t))
 
 
+class CallbackAbort(BaseException):
+    """raised by progress callbacks in `raisebase` mode: a callback cannot alter or abort the transfer, whatever it raises"""
+
+
 class StubSigner(object):
     def __init__(self, k, pub_as_str=False):
         self.k, self.pub_as_str = k, pub_as_str
@@ -126,7 +130,10 @@ class Runner(object):
         kind, fid = src
         files, dirs = self.scn.get("files", {}), self.scn.get("dirs", {})
         if kind == "bytesio":
-            return io.BytesIO(files[fid])
+            k = getattr(self, "_seek", 0)
+            bio = io.BytesIO(bytes(k) + files[fid])     # k bytes of an already-consumed prefix
+            bio.seek(k)
+            return bio
         if kind == "file":
             p = os.path.join(self.tmpdir(), "f%d.bin" % fid)
             with open(p, "wb") as f:
@@ -186,6 +193,8 @@ class Runner(object):
             self.link.events.append("cb:%s:%d:%d" % (hx(p), n, total))
             if mode == "raise":
                 raise ValueError("callback failure")
+            if mode == "raisebase":
+                raise CallbackAbort("callback failure outside the Exception hierarchy")
         return cb
 
     def run_op(self, op):
@@ -242,7 +251,9 @@ class Runner(object):
                 self.call(d.pull, op["path"].decode("utf8"), dest, progress_callback=self.progress_cb(op.get("cb", "none")), transport_timeout_s=tt, read_timeout_s=rt)
                 res = "ok none"
             elif kind == "push":
+                self._seek = op.get("seek", 0)
                 src = self.materialize(op["src"])
+                self._seek = 0
                 old = os.getcwd()
                 if op["src"][0] != "bytesio":
                     os.chdir(self.cwd)       # never the directory that holds the sources (F2)
